@@ -383,16 +383,12 @@ func newGSIBlock(s Subtitles) (g *gsiBlock) {
 		if s.Metadata.STLCreationDate != nil {
 			g.creationDate = *s.Metadata.STLCreationDate
 		}
-		// Metadata coming from another format doesn't set the STL specific fields: keep the defaults in that
-		// case, otherwise the file has no disk format code (framerate) and can't be read back
-		if s.Metadata.STLCountryOfOrigin != "" {
-			g.countryOfOrigin = s.Metadata.STLCountryOfOrigin
-		}
-		if s.Metadata.STLDisplayStandardCode != "" {
-			g.displayStandardCode = s.Metadata.STLDisplayStandardCode
-		}
+		g.countryOfOrigin = s.Metadata.STLCountryOfOrigin
+		g.displayStandardCode = s.Metadata.STLDisplayStandardCode
 		g.editorContactDetails = s.Metadata.STLEditorContactDetails
 		g.editorName = s.Metadata.STLEditorName
+		// Metadata coming from another format doesn't carry a frame rate STL knows: keep the default in that case,
+		// otherwise the file has no disk format code and can't be read back
 		if _, ok := stlFramerateMapping.GetInverse(s.Metadata.Framerate); ok {
 			g.framerate = s.Metadata.Framerate
 		}
